@@ -85,7 +85,7 @@ PROP = dict(
     rule="case = one (len, d, letter, noise, [fs]) call of finddelay / gccphat; one (N, d) of delayseq; one (n, idx, cyclic, "
          "triple) of peakloc; one stream (preamble, end frame, offset, floor, amplitude) of the detector = 8 detector objects "
          "(4 thresholds x 2 framings) run over 4 frames each; for detector.reset the same after a history (earlier traffic + reset()) "
-         "applied to each of the 8 objects. Non-trivial = d != 0 (estimators), 0 < |d| < N (delayseq), every "
+         "applied to each of the 8 objects, for detector.reject with one rejected (throwing) call inserted between the valid calls. Non-trivial = d != 0 (estimators), 0 < |d| < N (delayseq), every "
          "peakloc triple, every stream with a preamble or a noise floor",
     bounds=dict(
         quick="finddelay (real, complex) and gccphat (fs 1, 8000, 48000): len {128,129,200,256,500} x every d in [-len/4, len/4], "
@@ -97,10 +97,13 @@ PROP = dict(
               "thresholds 0.3,0.5,0.7,0.9; 1 and 2 frames per call; streams without preamble; reset histories on one detector object: "
               "{a: 4-frame stream with a preamble at another offset, b: 4 frames of noise at the preamble's power, c: one frame ending "
               "in the middle of a preamble, d: nothing} then reset() then a preamble stream, for every preamble x end offsets "
-              "{0, nh/2, nh-1, frame_len-1} x silence / floor x 3 amplitudes x 4 thresholds x 2 framings",
+              "{0, nh/2, nh-1, frame_len-1} x silence / floor x 3 amplitudes x 4 thresholds x 2 framings; rejected calls on one object: one "
+              "call of L_bad in {1, 5, frame_len-1, frame_len+1} noise samples (must throw) placed {a: before the stream, b: after the "
+              "first call, c: right before the call in which the preamble completes} of a 4-frame stream whose preamble ends in frame 2, "
+              "same preambles / offsets / floor / amplitudes / thresholds / framings",
         thorough="estimators: every len in 128..512 and {1000,1001,2048,5000} x every d in [-len/4, len/4], same letters/noise/fs; "
                  "delayseq N <= 40; peakloc n 3..8, triples over {-5,-2,-1,0,1,2,3,5}; detector: every offset modulo frame_len for "
-                 "every preamble, preamble ending in frame 1 and in frame 2; reset histories a-d at the 32 boundary/spread offsets per preamble"),
+                 "every preamble, preamble ending in frame 1 and in frame 2; reset histories a-d and rejected-call histories (3 placements x 4 L_bad) at the 32 boundary/spread offsets per preamble"),
     deadline=dict(quick=150, thorough=1500),
     assumptions=COMMON_ASSUME + [
         "white signal = fixed deterministic letters (sum of 4 LCG uniforms, unit variance); noise = another such letter 30 / 40 dB below",
@@ -113,5 +116,8 @@ PROP = dict(
         "reset(): the header gives no contract; it is read as 'afterwards the object handles a stream like a freshly constructed "
         "detector', checked with the same oracle and tolerances as a fresh object (score within 1e-9, not bit-identical: the moving-average "
         "recalculation phase is not reset). Earlier traffic has the same amplitude scale as the stream that follows",
+        "rejected calls: the header requires the length of sig to be a multiple of frame_len() and the implementation (and the "
+        "repository's own test) answer anything else with an exception; the check requires that exception and that the object is "
+        "unchanged by the rejected call (valid frames handled as if it had never been made)",
     ],
 )
